@@ -8,8 +8,19 @@ use crate::runner::{catch, finish, require_counter, run_recipes_opt, Ctx, Failur
 use serde_json::json;
 use std::sync::{Arc, Barrier};
 
-const SHAPES: [&str; 10] =
-    ["slice", "chain-2", "chain-4", "filter-separators", "vecdeque-wrapped", "rev-of-reversed", "skip-take-padded", "step_by-2", "custom-chunk-list", "flat_map-chunks+single-byte-arrays"];
+const SHAPES: [&str; 11] = [
+    "slice",
+    "chain-2",
+    "chain-4",
+    "filter-separators",
+    "vecdeque-wrapped",
+    "rev-of-reversed",
+    "skip-take-padded",
+    "step_by-2",
+    "custom-chunk-list",
+    "flat_map-chunks+single-byte-arrays",
+    "shared digit table (equal digits share one address)",
+];
 
 fn gen_case(fmt: Fmt, r: &gen::Recipe, lim: Limits) -> Case {
     match pick_w(r.sel[0], &[30, 25, 20, 10, 15]) {
@@ -68,7 +79,7 @@ fn check_case(fmt: Fmt, c: &Case, r: &gen::Recipe, stats: &mut Stats) -> Result<
             Fmt::F32 => cfg.shapes32,
             Fmt::F64 => cfg.shapes64,
         };
-        for s in 1..10u32 {
+        for s in 1..11u32 {
             let got = catch(|| shapes(&c.int, &c.frac, c.exp, s, salt.rotate_left(s)));
             if got != Ok(base) {
                 return Err(differ(fmt, cfg, c, &format!("shape:{}", SHAPES[s as usize]), base, got));
@@ -225,10 +236,10 @@ pub fn run(ctx: &Ctx) -> i32 {
     let lim: Limits = ctx.tier.pick(gen::QUICK, Limits { long: 10_000, huge: 100_000 });
     let mut rep = Report::new(
         "Differential against the baseline parse_float(int.iter(), frac.iter(), e) on fresh Vecs, per configuration \
-         (all 8) and format: (1) nine other fused, cloneable iterator shapes yielding the same bytes (chain of 2 and of \
+         (all 8) and format: (1) ten other fused, cloneable iterator shapes yielding the same bytes (chain of 2 and of \
          4 slices at generated cut points, filter over interleaved separators, wrapped VecDeque, rev over reversed \
          storage, skip/take over padded storage, step_by(2), a hand-written chunk-list iterator with empty chunks, \
-         flat_map over chunks + map over single-byte arrays); (2) the same bytes at offsets 0..15 inside a larger heap \
+         flat_map over chunks + map over single-byte arrays, map through one shared digit table so that equal digits have equal addresses); (2) the same bytes at offsets 0..15 inside a larger heap \
          buffer between guard bytes and adjacent digits, in a stack array, in boxed slices; (3) after a generated \
          history of other parses (other format, big-integer path, garbage bytes under catch_unwind) and two \
          stack-poisoning passes (position-dependent words, all zeros, all ones - so that a read of stale or never-written stack memory changes the outcome deterministically); (4) 16 threads parsing a shared list in thread-specific orders behind a barrier, \
